@@ -202,6 +202,24 @@ class C06(Check):
                         continue
                     if R.norm(back) != want:
                         out.fail("C06.roundtrip", "%s: bytes %s decode to %r, expected %r" % (where, real_bytes.hex(), back, want), "roundtrip")
+                    elif i % 3 == 0 and real_bytes:
+                        # the receiver's buffer is whatever its I/O layer hands out: a bytearray, or a memoryview with another item size
+                        nb = len(real_bytes)
+                        forms = [("bytearray", bytearray(real_bytes))]
+                        if nb % 2 == 0:
+                            forms.append(("memoryview-H", memoryview(bytearray(real_bytes)).cast("H")))
+                        if nb % 4 == 0:
+                            forms.append(("memoryview-I", memoryview(real_bytes).cast("I")))
+                        forms.append(("memoryview-slice", memoryview(b"\xff" + real_bytes + b"\xee\xdd")[1:1 + nb]))
+                        for nm, buf in forms:
+                            try:
+                                alt = R.norm(pydsdl.deserialize(real, buf))
+                            except Exception as ex:
+                                out.fail("C06.roundtrip", "%s: deserialize of the same octets carried by a %s raised %s: %s" % (where, nm, type(ex).__name__, ex), "roundtrip-buffer-raised:" + nm)
+                                continue
+                            out.stats["roundtrips_through_other_buffers"] += 1
+                            if alt != want:
+                                out.fail("C06.roundtrip", "%s: the same octets carried by a %s decode to %r, expected %r" % (where, nm, alt, want), "roundtrip-buffer:" + nm)
                     L = 8 * len(real_bytes)
                     if not in_set(inner_real.bit_length_set, sec.inner, L):
                         out.fail("C06.length-in-set", "%s: length %d bits is not an element of the (inner) bit_length_set" % (where, L), "length")
